@@ -101,7 +101,7 @@ def _random_mw(rng):
 
 
 DOC_NAMES = ["A and\n B", "Alice Smith and\n   Bob~Jones", "A\nand B", "A and\r\nB", "{A and\n B} and C", "A\tand\tB", "A", "A and B and\n\nC",
-             " A and B ", "A  and  B"]
+             " A and B ", "A  and  B", "{Simon and Schuster}", "{A and B}", "{A} and {B}", "{{A and B}}"]
 
 
 def _doc_check(case):
